@@ -497,5 +497,22 @@ func relClose(a, b, tol float64) bool {
 	return d <= tol*m
 }
 
-func jsonMarshal(v interface{}) ([]byte, error) { return json.Marshal(v) }
+func jsonMarshal(v interface{}) ([]byte, error)   { return json.Marshal(v) }
 func jsonUnmarshal(b []byte, v interface{}) error { return json.Unmarshal(b, v) }
+
+// unsortedSeed: a genome whose nodes are NOT listed in ascending id order and whose genes are not in
+// ascending innovation order (the constructors and both readers keep the given order). It is outside
+// the C01 predicate, but duplication and the encodings are stated for every genome.
+func unsortedSeed() *GenomeSpec {
+	act := neatmath.SigmoidSteepenedActivation
+	return &GenomeSpec{ID: 9,
+		Traits: []TraitSpec{{1, params8(0.1)}, {3, params8(0.9)}, {2, params8(0.5)}},
+		Nodes: []NodeSpec{{3, network.OutputNeuron, act, 3}, {1, network.InputNeuron, neatmath.NullActivation, 0}, {2, network.BiasNeuron, neatmath.NullActivation, 2},
+			{5, network.HiddenNeuron, neatmath.TanhActivation, 3}, {4, network.InputNeuron, neatmath.NullActivation, 1}},
+		Genes: []GeneSpec{
+			{In: 4, Out: 5, W: 0.75, Innov: 4, Mut: 0.75, En: false, Trait: 3},
+			{In: 5, Out: 3, W: -2.5, Innov: 3, Mut: 1, En: true, Trait: 0},
+			{In: 1, Out: 5, W: 1.0 / 3, Innov: 1, Mut: 1.0 / 3, En: true, Trait: 2},
+			{In: 2, Out: 3, W: 1e-7, Innov: 2, Mut: 0, En: true, Trait: 1}},
+	}
+}
